@@ -142,9 +142,10 @@ Definition shown_unit (s : snapshot) (o : opts) : funit :=
 (* `if stripzeros and total_hits == 0: return`   (show_func) *)
 Definition detail_shown (o : opts) (e : entry) : bool :=
   negb (o_strip o && (total_hits (snd e) =? 0)).
-(* `if not stripzeros or total_time:`  (show_text summary; total_time = sum * unit, unit > 0) *)
+(* `if not stripzeros or sum(t[1] for t in timings):`  (show_text summary; since /repo 49eff24 the
+   summary hides exactly the functions the details hide: those without hits) *)
 Definition summary_shown (o : opts) (e : entry) : bool :=
-  negb (o_strip o) || negb (total_time (snd e) =? 0).
+  negb (o_strip o) || negb (total_hits (snd e) =? 0).
 
 Record report := Report {
   rp_unit : funit;                       (* "Timer unit: %g s" *)
